@@ -309,7 +309,7 @@ func c04Transform(p *Prog, r *Report, rule string) {
 						// the call event's argument
 						for _, c := range x.Events {
 							if c.Kind == "call" && c.Name == "hermes.corrArr.getCorrValue" && c.InLoop(ls[1]) {
-								okT = len(c.Args) == 1 && c.Args[0].Equal(d.Add(PInt(1)))
+								okT = len(c.Args) >= 1 && c.Args[0].Equal(d.Add(PInt(1)))
 								det += fmt.Sprintf("; correction looked up for day %s (array index %s holds day index+1)", c.Args[0], d)
 							}
 						}
@@ -436,6 +436,131 @@ func c04CorrTable(p *Prog, r *Report) {
 		}
 	}
 	r.Ob("corr-table", p.Pos(fi.Decl.Pos()), ok, fmt.Sprintf("month thresholds %v must be cumulative month lengths + 1 (argument is the 1-based day of year)", thr))
+	// the thresholds are those of a regular year: in a leap year the day of the year is lowered by one from day 60
+	// (29 February) on before it is compared with them, and the leap flag handed in is that of the record's year
+	var dayP, leapP types.Object
+	for _, f := range fi.Decl.Type.Params.List {
+		for _, n := range f.Names {
+			o := info.Defs[n]
+			if b, isB := o.Type().Underlying().(*types.Basic); isB {
+				switch {
+				case b.Info()&types.IsInteger != 0 && dayP == nil:
+					dayP = o
+				case b.Info()&types.IsBoolean != 0 && leapP == nil:
+					leapP = o
+				}
+			}
+		}
+	}
+	okLeap, det := false, "the lookup takes no leap-year flag: on 29 February and on the last day of every later month of a leap year the next month's factor is applied"
+	if dayP != nil && leapP != nil {
+		det = "no 'leap year and day >= 60 → day − 1' adjustment before the month thresholds"
+		for _, st := range fi.Decl.Body.List {
+			ifs, isIf := st.(*ast.IfStmt)
+			if !isIf || ifs.Else != nil || len(ifs.Body.List) != 1 {
+				continue
+			}
+			if _, chain := stripParens(ifs.Cond).(*ast.BinaryExpr); !chain {
+				continue
+			}
+			mentionsLeap := false
+			ast.Inspect(ifs.Cond, func(n ast.Node) bool {
+				if id, isId := n.(*ast.Ident); isId && info.Uses[id] == leapP {
+					mentionsLeap = true
+				}
+				return true
+			})
+			// conjunction with the flag as a plain conjunct
+			plain := false
+			for _, c := range splitCond(ifs.Cond, false, nil) {
+				if !c.Neg && useObj(info, c.E) == leapP {
+					plain = true
+				}
+			}
+			dec := false
+			switch b := ifs.Body.List[0].(type) {
+			case *ast.IncDecStmt:
+				dec = b.Tok == token.DEC && useObj(info, b.X) == dayP
+			case *ast.AssignStmt:
+				if len(b.Lhs) == 1 && len(b.Rhs) == 1 && useObj(info, b.Lhs[0]) == dayP {
+					if b.Tok == token.SUB_ASSIGN {
+						if v, isC := exprInt64(info, b.Rhs[0]); isC && v == 1 {
+							dec = true
+						}
+					} else if be, isB := stripParens(b.Rhs[0]).(*ast.BinaryExpr); isB && be.Op == token.SUB && useObj(info, be.X) == dayP {
+						if v, isC := exprInt64(info, be.Y); isC && v == 1 {
+							dec = true
+						}
+					}
+				}
+			}
+			if !mentionsLeap || !plain || !dec {
+				continue
+			}
+			vals := map[types.Object]bool{dayP: true}
+			at59 := evalRangeCond(info, ifs.Cond, nil, vals, "", 59)
+			at60 := evalRangeCond(info, ifs.Cond, nil, vals, "", 60)
+			at366 := evalRangeCond(info, ifs.Cond, nil, vals, "", 366)
+			if at59 == triF && at60 != triF && at366 != triF {
+				okLeap, det = true, "day lowered by one under 'leap year ∧ day ≥ 60'"
+			} else {
+				det = "the leap adjustment does not start exactly at day 60"
+			}
+		}
+	}
+	r.Ob("corr-table:leap", p.Pos(fi.Decl.Pos()), okLeap, det)
+	// call site: the flag is 'year of the record divisible by 4' (the model's leap rule, 1901–2099)
+	tf := p.Funcs["hermes.WeatherDataShared.transformWeatherData"]
+	okSite, detSite := false, "call site not found"
+	if tf != nil && leapP != nil {
+		tinfo := tf.Pkg.TypesInfo
+		ast.Inspect(tf.Decl.Body, func(n ast.Node) bool {
+			call, isC := n.(*ast.CallExpr)
+			if !isC {
+				return true
+			}
+			if f := callee(tinfo, call); f == nil || f.Name() != "getCorrValue" || len(call.Args) != 2 {
+				return true
+			}
+			detSite = "the leap flag handed in is " + types.ExprString(call.Args[1])
+			arg := stripParens(call.Args[1])
+			if o := useObj(tinfo, arg); o != nil {
+				if ds := defsOf(tinfo, tf.Decl.Body, o); len(ds) == 1 && ds[0].Rhs != nil {
+					arg = stripParens(ds[0].Rhs)
+					detSite += " = " + types.ExprString(arg)
+				}
+			}
+			be, isB := arg.(*ast.BinaryExpr)
+			if !isB || be.Op != token.EQL {
+				return true
+			}
+			z, isZ := exprInt64(tinfo, be.Y)
+			mod, isM := stripParens(be.X).(*ast.BinaryExpr)
+			if !isZ || z != 0 || !isM || mod.Op != token.REM {
+				return true
+			}
+			four, isF := exprInt64(tinfo, mod.Y)
+			ie, isI := stripParens(mod.X).(*ast.IndexExpr)
+			if !isF || four != 4 || !isI {
+				return true
+			}
+			sel, isS := stripParens(ie.X).(*ast.SelectorExpr)
+			if !isS || sel.Sel.Name != "JAR" {
+				return true
+			}
+			// the index is the variable of the year loop that encloses the call
+			yv := useObj(tinfo, ie.Index)
+			for _, nd := range nodePath(tf.Decl.Body, call) {
+				if fs, isFor := nd.(*ast.ForStmt); isFor {
+					if v, _, _, _ := forHeader(tinfo, fs); v != nil && v == yv {
+						okSite = true
+					}
+				}
+			}
+			return true
+		})
+	}
+	r.Ob("corr-table:leap-flag", p.Pos(fi.Decl.Pos()), okSite, detSite+" (must be 'JAR[y] % 4 == 0' of the year y whose records are transformed)")
 }
 
 // ---------------------------------------------------------------- R5 LoadYear
